@@ -22,6 +22,7 @@ type Env struct {
 	st     *State
 	old    *State
 	bound  map[string]Val
+	qvars  int // number of enclosing quantifiers translated with bound (non-skolem) variables
 	depth  int
 	// skolemisation of positive universal quantifiers in goals
 	skolemize bool
@@ -341,7 +342,9 @@ func (env *Env) tr(x *Expr) Val {
 			}
 		}
 		env.bound = nb
+		env.qvars++
 		body := env.tr(x.Args[0])
+		env.qvars--
 		env.bound = saved
 		if e.sortOf(body.Ty) != "Bool" {
 			sfail("quantifier body not boolean")
@@ -472,6 +475,15 @@ func (env *Env) fieldAt(addr string, st types.Type, path []int) Val {
 		c, _ := e.fieldComp(key, f)
 		v := "(select " + e.get(env.st, c) + " " + curAddr + ")"
 		if last {
+			if env.qvars == 0 && env.st != nil {
+				// a reference stored in a program state was allocated in that state
+				switch f.Type().Underlying().(type) {
+				case *types.Slice:
+					e.sc.assert("(<= (s_arr " + v + ") " + e.get(env.st, "alloc") + ")")
+				case *types.Pointer, *types.Map:
+					e.sc.assert("(<= " + v + " " + e.get(env.st, "alloc") + ")")
+				}
+			}
 			return Val{T: v, Ty: f.Type()}
 		}
 		// embedded pointer: continue through it
